@@ -23,5 +23,8 @@ int main(int argc, char **argv) {
     if (prop == "c14") rc = drive("C14", opt, c14::body);
     if (prop == "c15") rc = drive("C15", opt, c15::body);
     if (opt.own_work) rm_rf(opt.work);
-    return rc;
+    // leave without exit handlers: after a failed case entities may still be open, and HDF5's own
+    // termination routine is not part of what is checked
+    fflush(nullptr);
+    _exit(rc);
 }
